@@ -513,7 +513,7 @@ func (w *c15World) joinDuringReload(ne, gateAt int, excl bool, during func()) {
 	}
 	// alive watchers = those whose goroutine is parked on their channel now
 	w.live = nil
-	rev := c15BaseRev + int64(w.etcd.logLen())
+	rev := w.etcd.rev()
 	for _, cand := range w.etcd.watchesFrom(nbR) {
 		if c15TrySend(cand, c15Response(nil, rev)) {
 			w.live = append(w.live, cand)
